@@ -84,6 +84,9 @@ def eofBody (t : α) : α :=
 def eof2qubit (c : α) : α :=
   if eofZeroShortcut && c == 0 then 0 else eofBody (eofT c)
 
+/-- the argument of `np.sqrt` in `get_concurrence_pure` (`eof.py:56`), given the radicand `2*(1-tmp2)` -/
+def concPureSqrtArg (x : α) : α := if concPureClampSqrtArg then pyMax0 x else x
+
 /-- `get_gme_2qubit` as a function of the concurrence -/
 def gme2qubit (c : α) : α := (1 - SqrtLog.sqrt (sqrtArg gmeClampSqrtArg c)) / 2
 
